@@ -17,8 +17,8 @@ Section TreeInd.
   Hypothesis Hpath : forall i fl st, Pa fl -> Pa st -> Pn (NPath i fl st).
   Hypothesis Himage : forall i sub, OptP Pg sub -> Pn (NImage i sub).
   Hypothesis Htext : forall i flat chunks, Pg flat -> Pn (NText i flat chunks).
-  Hypothesis HG : forall i clip mask filters kids,
-      OptP Pc clip -> OptP Pm mask -> Forall Pf filters -> Forall Pn kids -> Pg (G i clip mask filters kids).
+  Hypothesis HG : forall i sy clip mask filters kids,
+      OptP Pc clip -> OptP Pm mask -> Forall Pf filters -> Forall Pn kids -> Pg (G i sy clip mask filters kids).
   Hypothesis HCD : forall p i nx r, OptP Pc nx -> Pg r -> Pc (CD p i nx r).
   Hypothesis HMD : forall p i nx r, OptP Pm nx -> Pg r -> Pm (MD p i nx r).
   Hypothesis HFD : forall p i prims, Forall Pp prims -> Pf (FD p i prims).
@@ -39,8 +39,8 @@ Section TreeInd.
     end
   with group_ind' (g : group) {struct g} : Pg g :=
     match g return Pg g with
-    | G i clip mask filters kids =>
-        HG i clip mask filters kids
+    | G i sy clip mask filters kids =>
+        HG i sy clip mask filters kids
           (match clip return OptP Pc clip with Some c => clip_ind' c | None => I end)
           (match mask return OptP Pm mask with Some m => mask_ind' m | None => I end)
           ((fix go (l : list filterdef) : Forall Pf l :=
@@ -102,8 +102,8 @@ End TreeInd.
 Section Eqns.
   Context {A : Type} (sf : bool) (f : node -> A -> A).
 
-  Lemma walk_group_eq i c m fs ks a :
-    walk_group sf f (G i c m fs ks) a = walk_nodes sf f ks a.
+  Lemma walk_group_eq i sy c m fs ks a :
+    walk_group sf f (G i sy c m fs ks) a = walk_nodes sf f ks a.
   Proof.
     unfold walk_nodes. simpl. revert a. induction ks as [|n r IH]; intro a; simpl; auto.
   Qed.
@@ -116,8 +116,8 @@ Section Eqns.
        match l with [] => a | fd :: r => go r (walk_filter sf f fd a) end) fs a =
     walk_filters sf f fs a.
   Proof. unfold walk_filters. revert a. induction fs as [|x r IH]; intro a; simpl; auto. Qed.
-  Lemma walk_gsub_eq i c m fs ks a :
-    walk_gsub sf f (G i c m fs ks) a =
+  Lemma walk_gsub_eq i sy c m fs ks a :
+    walk_gsub sf f (G i sy c m fs ks) a =
     walk_filters sf f fs
       (match m with Some m' => walk_mask sf f m' | None => fun x => x end
          (match c with Some c' => walk_clip sf f c' | None => fun x => x end a)).
@@ -175,12 +175,12 @@ Proof. destruct img; reflexivity. Qed.
 Lemma all_paint_pat p i r : all_paint (PPat p i r) = all_group r.
 Proof. reflexivity. Qed.
 
-Lemma all_group_eq i c m fs ks : all_group (G i c m fs ks) = flat_map all_node ks.
+Lemma all_group_eq i sy c m fs ks : all_group (G i sy c m fs ks) = flat_map all_node ks.
 Proof. reflexivity. Qed.
 Lemma all_filter_eq p i ps : all_filter (FD p i ps) = flat_map all_prim ps.
 Proof. reflexivity. Qed.
-Lemma all_gdefs_eq i c m fs ks :
-  all_gdefs (G i c m fs ks) =
+Lemma all_gdefs_eq i sy c m fs ks :
+  all_gdefs (G i sy c m fs ks) =
   match c with Some c' => all_clip c' | None => [] end ++
   match m with Some m' => all_mask m' | None => [] end ++ flat_map all_filter fs.
 Proof.
@@ -244,7 +244,7 @@ Section WalkInv.
       + eapply inv_on_incl; [|exact HI]. apply incl_tl, incl_refl.
       + apply HI; simpl; auto.
     - (* G *)
-      intros i c m fs ks Hc Hm Hfs Hks I. split.
+      intros i sy c m fs ks Hc Hm Hfs Hks I. split.
       + intros HI a Ha. rewrite walk_group_eq. rewrite all_group_eq in HI.
         apply walk_nodes_inv; auto.
       + intros HI a Ha. rewrite walk_gsub_eq. rewrite all_gdefs_eq in HI.
@@ -375,7 +375,7 @@ Section WalkDone.
       + apply Sg, D1.
       + apply Hfl; auto.
     - (* G *)
-      intros i c m fs ks Hc Hm Hfs Hks. split.
+      intros i sy c m fs ks Hc Hm Hfs Hks. split.
       + intros n Hn a. rewrite walk_group_eq. rewrite all_group_eq in Hn.
         revert a. unfold walk_nodes. induction Hks as [|k r Hk Hr IH]; intro a; simpl in *; [destruct Hn|].
         apply in_app_or in Hn. destruct Hn as [Hn|Hn].
